@@ -233,10 +233,9 @@ Timeline == \A o \in Ops : /\ (ost[o] = "new") = (st[o] < 0)
                            /\ (ost[o] \in {"done", "failed", "aborted"}) = (en[o] >= 0)
                            /\ (en[o] >= 0 => st[o] <= en[o])
 (* success = every item of every stream executed (exactly once), the tree is well-formed, nothing is running *)
-SuccessComplete == ret.st = "ok" => /\ \A o \in Ops : ost[o] = "done"
-                                    /\ \A s \in Lists : sst[s] = "done"
-                                    /\ ~Malformed /\ InFlight = {}
-                                    /\ \A o \in Ops : en[o] <= ret.at
+SuccessCompleteOps == ret.st = "ok" => /\ \A o \in Ops : ost[o] = "done" /\ en[o] <= ret.at
+                                       /\ ~Malformed /\ InFlight = {}
+SuccessComplete == SuccessCompleteOps /\ (ret.st = "ok" => \A s \in Lists : sst[s] = "done")
 (* one timing per executed operation, in document order whatever the completion order was *)
 DocOrder == LET RECURSIVE OpSeq(_)
                 OpSeq(from) == LET rest == {o \in Ops : o >= from}
@@ -245,8 +244,8 @@ DocOrder == LET RECURSIVE OpSeq(_)
             IN OpSeq(1)
 TimingsComplete == ret.st = "ok" => tm[0] = DocOrder
 (* a raising sub-request or a rejected item: the composite raises, at that very instant, that exception *)
-NoSuccessOnFailure == (\E o \in Ops : ost[o] \in {"failed", "aborted"}) \/ (\E s \in Lists : sst[s] \in {"failed", "cancelled"})
-                          => ret.st # "ok"
+NoSuccessOnFailureOps == (\E o \in Ops : ost[o] \in {"failed", "aborted"}) => ret.st # "ok"
+NoSuccessOnFailure == NoSuccessOnFailureOps /\ ((\E s \in Lists : sst[s] \in {"failed", "cancelled"}) => ret.st # "ok")
 FailFast == ret.st = "raised" =>
               /\ ret.err \in N
               /\ IF Kind(ret.err) = "op" THEN ost[ret.err] = "failed" /\ en[ret.err] = ret.at
